@@ -447,3 +447,39 @@ Proof.
   split; [|exact Cu]. apply index_of_spec in I. destruct I as [_ N]. eapply nth_error_In; eauto.
 Qed.
 End Objects.
+
+(* ======== the order of the top-level sections is irrelevant ======== *)
+Section TopOrder.
+Variable T : tabs.
+(* python dictionaries have one entry per key *)
+Definition unique_keys (kv : list (cfg * cfg)) : Prop := forall s, (length (filter (fun e => key_is s (fst e)) kv) <= 1)%nat.
+
+Lemma assoc_In s kv v : assoc s kv = Some v -> exists k, In (k, v) kv /\ key_is s k = true.
+Proof.
+  induction kv as [|[k x] r IH]; cbn [assoc]; [discriminate|]. destruct (key_is s k) eqn:K.
+  - intros E. injection E as <-. exists k. split; [left; reflexivity | exact K].
+  - intros E. destruct (IH E) as (k' & Hin & Hk). exists k'. split; [right|]; assumption.
+Qed.
+Lemma filter_perm {A} (f : A -> bool) l l' : Permutation l l' -> Permutation (filter f l) (filter f l').
+Proof.
+  induction 1 as [|x l l' _ IH|x y l|l l' l'' _ IH1 _ IH2]; cbn [filter]; [constructor | destruct (f x); [constructor|]; exact IH | | eapply perm_trans; eauto].
+  destruct (f x), (f y); try apply Permutation_refl. apply perm_swap.
+Qed.
+Lemma assoc_filter s kv : assoc s kv = match filter (fun e => key_is s (fst e)) kv with [] => None | e :: _ => Some (snd e) end.
+Proof. induction kv as [|[k x] r IH]; [reflexivity|]. cbn [assoc filter fst]. destruct (key_is s k); [reflexivity | exact IH]. Qed.
+Lemma assoc_perm s kv kv' : unique_keys kv -> Permutation kv kv' -> assoc s kv = assoc s kv'.
+Proof.
+  intros U P. rewrite !assoc_filter. pose proof (filter_perm (fun e => key_is s (fst e)) _ _ P) as FP. specialize (U s).
+  destruct (filter (fun e => key_is s (fst e)) kv) as [|a [|b t]] eqn:F.
+  - apply Permutation_nil in FP. rewrite FP. reflexivity.
+  - apply Permutation_length_1_inv in FP. rewrite FP. reflexivity.
+  - cbn in U. lia.
+Qed.
+Theorem build_section_order kv kv' req opt wild : t_dict T (k_env T) = Some (req, opt, wild) -> unique_keys kv -> Permutation kv kv' ->
+  build T (CDict kv) = build T (CDict kv').
+Proof.
+  intros H U P. unfold build. rewrite (valid_dict_perm T _ _ _ _ _ _ H P).
+  destruct (negb (valid T (k_env T) (CDict kv'))); [reflexivity|].
+  rewrite !(assoc_perm _ _ _ U P). reflexivity.
+Qed.
+End TopOrder.
